@@ -19,6 +19,7 @@ def run(ctx, prop="C13", props=PROPS, field_filter=None, checkers=("none", "byte
         return C.finish(ctx, props, aud, {"evaluations": 0, "distinct_nontrivial": 0, "samples": []}, violations, ties, ASSUME)
     cs = M.cases(checkers=checkers, deep=not ctx.quick())
     cs += M.cases(checkers=("none", "byteeq"), ops=M.EXTRA_OPS)
+    cs += M.extra_cases(checkers=checkers)
     spec = M.spec_outcomes(sorted(set(d["abs"] for d, _ in cs)))
     res = S.run_many([(d, L) for d, L in cs])
     nontriv, samples, agree = 0, [], 0
@@ -47,7 +48,7 @@ def run(ctx, prop="C13", props=PROPS, field_filter=None, checkers=("none", "byte
         elif len(samples) < 5 and len(present) >= 2:
             samples.append({"config": desc["abs"], "observed": ob})
     cov = {"evaluations": len(res), "distinct_nontrivial": nontriv,
-           "rule": "exhaustive matrix: write side {none, plain, sharded} x read-only levels {0,1,2%s} plain/sharded x each level {absent, A, B} x checker %s x {get, touch, set, put, get_or_update x {Accept, Promote, Replace} x populate {value P, value A, NotFound, other error}} plus ensure/set_temp_file/put_temp_file; each point run on the implementation and on the model (results, snapshots, call traces) and judged against the extracted abstract specification. Non-trivial = >=2 levels hold the key, or Promote/Replace, or populate fails." % ("" if ctx.quick() else ",3", list(checkers)),
+           "rule": "exhaustive matrix: write side {none, plain, sharded} x read-only levels {0,1,2%s} plain/sharded x each level {absent, A, B} x checker %s x {get, touch, set, put, get_or_update x {Accept, Promote, Replace} x populate {value P, value A, NotFound, other error}} plus ensure/set_temp_file/put_temp_file, plus targeted additions in both tiers: three read-only levels with a gap between two copies, and entries living in the secondary shard of a sharded level looked up through a fresh handle; each point run on the implementation and on the model (results, snapshots, call traces) and judged against the extracted abstract specification. Non-trivial = >=2 levels hold the key, or Promote/Replace, or populate fails." % ("" if ctx.quick() else ",3", list(checkers)),
            "samples": samples, "traces_validated_against_impl": agree, "exhaustive": True}
     if not ctx.quick():
         rc, o = C.coqchk(props)
